@@ -62,3 +62,20 @@ Proof. exact V.Proofs.Small_proofs.conj_table_ok. Qed.
 Theorem C04_conjuncts_shape : forall a b l,
   V.Model.SmallFns.join_conjuncts (a :: b :: l) = (V.Model.SmallFns.paren a ++ " AND " ++ V.Model.SmallFns.join_conjuncts (b :: l))%string.
 Proof. exact V.Proofs.Small_proofs.join_conjuncts_cons2. Qed.
+
+Require V.Model.CteShape V.Gen.CteShape_gen V.Proofs.CteShape_proofs.
+(* A FILTER DECLARED ON A METRIC ONLY TOUCHES THAT METRIC'S RAW COLUMN (regenerated table of _build_model_cte: see Props/C20.v).  For ANY model: the raw column of a
+   filtered measure is CASE WHEN <conjunction of its filters> THEN <the raw column it would have without filters> ELSE NULL END, and giving metric n other filters leaves the raw
+   column of every other metric n' unchanged.  (C04_metric_filter_local is the statement about VALUES over the relational model; this is the statement about the text the
+   generator emits, tied to the source by the table.) *)
+Theorem C04_cte_table : forallb (V.Model.CteShape.cte_row_ok V.Gen.CteShape_gen.cte_world) V.Gen.CteShape_gen.cte_rows = true.
+Proof. exact V.Proofs.CteShape_proofs.cte_table_holds. Qed.
+Theorem C04_metric_filter_only_its_column : forall qa conj m n fs n', n' <> n ->
+  V.Model.CteShape.measure_items qa conj (V.Proofs.CteShape_proofs.with_mets m (V.Proofs.CteShape_proofs.set_filters (V.Model.CteShape.mo_mets m) n fs)) [n'] =
+  V.Model.CteShape.measure_items qa conj m [n'].
+Proof. exact V.Proofs.CteShape_proofs.metric_filter_local. Qed.
+Theorem C04_filtered_measure_guarded : forall conj m x f fs, V.Model.CteShape.cm_filters x = f :: fs ->
+  V.Model.CteShape.measure_expr conj m x =
+    ("CASE WHEN " ++ conj (map (fun f => V.Model.CteShape.py_replace "{model}" "" (V.Model.CteShape.py_replace "{model}." "" f)) (f :: fs)) ++
+     " THEN " ++ V.Model.CteShape.measure_base m x ++ " ELSE NULL END")%string.
+Proof. exact V.Proofs.CteShape_proofs.filtered_measure_is_guarded_base. Qed.
